@@ -126,6 +126,19 @@ func PlusContents() []Content {
 			b.Add(AuxA, P(J{"type": "object", "properties": J{"in": simpleObj("oddAuxIn"), "self": J{"$ref": "#/definitions/" + EscName(nm)}}}, "definitions", nm))
 		})
 	}
+	// two sibling names of which one is the URL-escaped spelling of the other: keys of the analyzer that are URL-unescaped
+	// before use designate the wrong sibling
+	for i, pair := range [][2]string{{"%41", "A"}, {"a%20b", "a b"}, {"x%2Fy", "x/y"}} {
+		pair := pair
+		add("escapedSiblingNames"+strconv.Itoa(i), "plus-names", func(b *BundleSpec, s int) J {
+			b.Add(AuxA, P(simpleObj("escAux"), "definitions", "escAux"))
+			return J{"type": "object", "properties": J{pair[0]: J{"$ref": AuxA + "#/definitions/escAux"}, pair[1]: J{"type": "string"}}}
+		})
+		add("escapedSiblingDefinitions"+strconv.Itoa(i), "plus-names", func(b *BundleSpec, s int) J {
+			b.Add(RootFile, P(J{"type": "object", "properties": J{"in": simpleObj("escIn")}}, "definitions", pair[0]), P(J{"type": "string"}, "definitions", pair[1]))
+			return J{"type": "object", "properties": J{"e": LocalRef(pair[0]), "p": LocalRef(pair[1])}}
+		})
+	}
 	add("oddPropertyNames", "plus-names", func(b *BundleSpec, s int) J {
 		return J{"type": "object", "properties": J{"50%": simpleObj("pct"), ".": simpleObj("dot"), "..": simpleObj("dotdot"), "": simpleObj("empty"), "a%2Fb": simpleObj("enc")}}
 	})
